@@ -6,7 +6,7 @@ VERUS_TECH = 'contract-based deductive verification (Verus/Z3) of functions extr
 
 PROPERTIES = {
     'C01': dict(
-        level='proof', verus=['rlabels', 'rbranch'], kani=[],
+        level='proof', verus=['rlabels', 'rbranch'], kani=['flags'],
         technique=VERUS_TECH,
         claim='Unbounded proof, for the functions under contract only: the reader offset->Label table (bounds checks, exact lookup, frame, injectivity invariant), '
               'branch-target arithmetic (i16/i32 offsets, u16 range check), switch padding and the primitive big-endian readers satisfy postconditions taken from the property statement. '
@@ -15,7 +15,7 @@ PROPERTIES = {
              'external_body Labels::get_or_add_unchecked (HashMap::entry is outside Verus); fewer than 65535 labels.',
         out=['duke/src/class_reader.rs read_code opcode match (closure)', 'duke/src/class_reader/pool.rs', 'duke/src/visitor/implementations/tree.rs']),
     'C02': dict(
-        level='proof', verus=['cwrite', 'wjump'], kani=[],
+        level='proof', verus=['cwrite', 'wjump'], kani=['flags'],
         technique=VERUS_TECH,
         claim='Unbounded proof, for the functions under contract only: every jump emitted by if_helper/goto_helper/switch_helper has exactly the narrow / wide / inverted-if+goto_w byte shape with the offset that lands on the label, '
               'the narrow form is chosen iff the offset fits i16, unresolved jumps reserve a slot whose recorded patch position and base are exact, put_i16_at/put_i32_at patch big-endian and touch nothing else, '
